@@ -326,6 +326,12 @@ HANDMADE = [
                    "b": {"instances": None, "inputs": ["x"], "req": [], "opt": ["1"], "body": {"1": {"k": "ret", "e": "const", "c": 1}}},
                    "c": {"instances": None, "inputs": ["y"], "req": [], "opt": ["1"], "body": {"1": {"k": "ret", "e": "const", "c": 0}}}},
      "unknown": ["z"], "request": ["a"], "fieldNames": []},
+    # a required line reads a required line that turns out unimplemented and is tried FIRST (it sorts higher): the reader
+    # must still be reported as blocked behind it
+    {"catalogue": {"a": {"instances": None, "inputs": [], "req": ["1", "7"], "opt": [],
+                         "body": {"1": {"k": "ln", "n": "7", "br": [{"k": "ret", "e": "acc", "c": 0}]},
+                                  "7": {"k": "unimpl"}}}},
+     "unknown": ["z"], "request": ["a"], "fieldNames": []},
     # the same form requested twice
     {"catalogue": {"a": {"instances": None, "inputs": ["x"], "req": ["1"], "opt": [],
                          "body": {"1": {"k": "in", "n": "x", "br": [{"k": "ret", "e": "acc", "c": 0}]}}}},
@@ -341,9 +347,11 @@ def generate(n, seed_, **kw):
         p = dict(h)
         p["id"] = k + 1
         out.append(p)
-    while len(out) < n:
+    # n counts the RANDOM programs: adding a hand-written one must not push a random one out (the kept seeded changes
+    # are re-checked against this family)
+    while len(out) < n + len(HANDMADE):
         out.append(g.program(len(out) + 1))
-    return out[:n]
+    return out
 
 
 # ---------------------------------------------------------------------------------------------
